@@ -260,7 +260,7 @@ def check(tier, seed):
         rig.feed(c['impl'])
         c['rib'] = rig.content()
     pairs = [(c['sess'], c['body']) for c in cases]
-    ok, ev, logs = c02.coq_eval(pairs, 'c08', what=('fixed', 'pinned'))
+    ok, ev, logs = c02.eval_two_pass(cases, 'c08', False)
     run.obligation('model evaluation (vm_compute of dec_update and dec_update_pinned on every corrupted body) ran', ok, '\n'.join(logs)[-2500:])
     okv, verdicts, logsv = coq_verdicts(pairs, 'c08v')
     run.obligation('RFC 7606 verdict (vm_compute of Spec_Wire.verdict on every corrupted body) ran', okv, '\n'.join(logsv)[-2500:])
@@ -273,7 +273,7 @@ def check(tier, seed):
         mp = c02.model_canon(ev['pinned'][i]) if ev['pinned'][i] else None
         if mf != ic:
             corr_fixed.append(i)
-        if mp != ic:
+        if mf != ic and mp != ic:
             corr_pinned.append(i)
         dist[(c['fault'], c['impl']['kind'] if c['impl']['kind'] != 'notify' else 'notify%d/%d' % c['impl']['code'])] += 1
         v = verdicts[i]
